@@ -76,6 +76,9 @@ pub fn run(ctx: &Ctx, id: &str) -> i32 {
             return rc;
         }
     }
+    if matches!(prop, Prop::C01 | Prop::C03) {
+        crate::also_in_release_build(&mut report, id, ctx);
+    }
     report.finish()
 }
 
